@@ -125,6 +125,64 @@ theorem kb_per_vial (a c xi : ℝ) (p : Params ℝ) (kb' : List ℝ) (isCN : Boo
     simp only [vialStep, h3, zero_real, hi]
     rfl
 
+/-- **k_v as the run constructs it**: the parameters of a run are built by `Params.withXi a c ξ`
+(`Ops/Flake.lean`, mirroring `kb = 10 ** (-(a + xi_v * c))`), so the factor of vial `i` is
+`10^−(a + c·ξ_i)` of ITS OWN standard normal `ξ_i`. -/
+theorem kb_from_xi (p : Params ℝ) (a c : ℝ) (xi : List ℝ) (i : Nat) (hi : i < xi.length) :
+    (p.withXi a c xi).kb.getD i 0 = kbOf a c (xi.getD i 0) ∧
+    (p.withXi a c xi).kb.getD i 0 = (10 : ℝ) ^ (-(a + xi.getD i 0 * c)) := by
+  have h : (p.withXi a c xi).kb.getD i 0 = kbOf a c (xi.getD i 0) := by
+    simp [Params.withXi, List.getD_eq_getElem?_getD, hi]
+  exact ⟨h, by rw [h]; simp [kbOf]⟩
+
+/-- **which draw belongs to which vial** (`diceRolls[candidates] = rng.random(n_candidates)`):
+the `r`-th number of the generator call goes to the `r`-th candidate in vial-index order, i.e. vial
+`i` — if it is a candidate — gets draw number `#{candidates with index < i}`; a vial that is not a
+candidate gets no draw (its entry is 0 and is never compared, `not_candidate_never`). -/
+theorem dice_routing (cands : List Bool) (draws : List ℝ) (i : Nat) :
+    (assignDice cands draws).length = cands.length ∧
+    (assignDice cands draws).getD i 0 =
+      if cands.getD i false then draws.getD ((cands.take i).count true) 0 else 0 := by
+  refine ⟨?_, ?_⟩
+  · induction cands generalizing draws with
+    | nil => simp [assignDice]
+    | cons b cs ih =>
+      cases b
+      · simp [assignDice, ih]
+      · cases draws <;> simp [assignDice, ih]
+  · induction cands generalizing draws i with
+    | nil => simp [assignDice]
+    | cons b cs ih =>
+      cases b
+      · cases i with
+        | zero => simp [assignDice]
+        | succ i => simpa [assignDice, List.take_succ_cons] using ih draws i
+      · cases draws with
+        | nil =>
+          cases i with
+          | zero => simp [assignDice]
+          | succ i =>
+            have := ih [] i
+            simp only [assignDice, List.getD_cons_succ, zero_real] at this ⊢
+            rw [this]; simp
+        | cons d ds =>
+          cases i with
+          | zero => simp [assignDice]
+          | succ i =>
+            have := ih ds i
+            simp only [assignDice, List.getD_cons_succ, List.take_succ_cons, List.count_cons_self] at this ⊢
+            rw [this]
+
+/-- the per-vial dice of a step are that routing applied to the step's candidate mask and the
+numbers delivered by the generator call of the step -/
+theorem step_dice (p : Params ℝ) (k : Nat) (Tsh : ℝ) (s : State ℝ) (i : Nat) :
+    (diceOf p k Tsh s).getD i 0 =
+      if (candidates p k Tsh s).toList.getD i false then
+        (drawn s).getD (((candidates p k Tsh s).toList.take i).count true) 0
+      else 0 := by
+  have := (dice_routing (candidates p k Tsh s).toList (drawn s) i).2
+  simpa [diceOf, Array.getD_eq_getD_getElem?, List.getD_eq_getElem?_getD] using this
+
 /-- **positive on candidates** -/
 theorem P_pos (c : Consts ℝ) (dt kb T : ℝ) (hkb : 0 < kb) (hV : 0 < c.V) (hdt : 0 < dt)
     (hT : T < c.T_eq_l) : 0 < rateP c dt kb T := by
